@@ -232,6 +232,12 @@ func (x *Exec) monitorEnter(st *State, p *PtrVal, in ssa.Instruction) {
 	ce := &cenv{x: x, st: st, old: st, vars: map[string]cvar{"self": {v: owner, t: types.NewPointer(owner.BTyp)}}}
 	x.assume(st, ce.evalBool(mon.Expr))
 	x.note("monitor " + key + ": state forgotten at Lock and invariant assumed; invariant re-proved at Unlock")
+	if x.topFrame != nil && x.topFrame.con != nil && len(x.topFrame.con.Sections[key]) > 0 && x.dry == 0 {
+		if x.sectionOld == nil {
+			x.sectionOld = map[string]*State{}
+		}
+		x.sectionOld[key] = st.clone()
+	}
 }
 
 func (x *Exec) monitorExit(st *State, p *PtrVal, in ssa.Instruction) {
@@ -242,6 +248,16 @@ func (x *Exec) monitorExit(st *State, p *PtrVal, in ssa.Instruction) {
 	}
 	ce := &cenv{x: x, st: st, old: st, vars: map[string]cvar{"self": {v: owner, t: types.NewPointer(owner.BTyp)}}}
 	x.assertClause(st, "monitor", "at Unlock of "+key+": ", ce, mon, in.Pos())
+	// two-state clauses of the unit's contract over this critical section (old = state at Lock)
+	if x.topFrame != nil && x.topFrame.con != nil && x.dry == 0 {
+		if snap := x.sectionOld[key]; snap != nil {
+			for _, cl := range x.topFrame.con.Sections[key] {
+				sce := x.clauseEnv(x.topFrame, st, nil)
+				sce.old = snap
+				x.assertClause(st, "section", "critical section of "+key+": ", sce, cl, in.Pos())
+			}
+		}
+	}
 }
 
 func libUnlock(x *Exec, fr *Frame, st *State, fn *ssa.Function, args []Val, in ssa.Instruction, rt types.Type) Val {
@@ -268,9 +284,23 @@ func libOnceDo(x *Exec, fr *Frame, st *State, fn *ssa.Function, args []Val, in s
 		x.havocUnknown(st, "sync.Once.Do with non-literal function")
 		return nil
 	}
-	c := fresh("once.first", sortBool)
-	x.note("sync.Once.Do: modelled as running the function under an arbitrary condition")
-	x.under(st, c, func(sub *State) {
+	// ghost flag "this Once has fired" (monotone, so what this thread knows stays true under
+	// interference): the function runs only if the flag is not known to be set, and then under
+	// an arbitrary condition (another goroutine may have fired it first)
+	cond := fresh("once.first", sortBool)
+	if p := x.asPtr(args[0], fn.Signature.Recv().Type()); p != nil && p.Base == PObj && len(p.Path) == 1 && !p.Path[0].IsIdx {
+		sty := structOf(p.BTyp)
+		hn := "ghost:once:" + x.env.te.namedKey(p.BTyp) + "." + sty.Field(p.Path[0].Field).Name()
+		h := st.H(hn, arraySort(sortInt, sortBool))
+		if x.sequential {
+			cond = mkNot(mkSelect(h, p.Ref)) // no other goroutine: fires exactly if not yet fired
+		} else {
+			cond = mkAnd(mkNot(mkSelect(h, p.Ref)), cond)
+		}
+		st.setH(hn, mkStore(h, p.Ref, tTrue))
+	}
+	x.note("sync.Once.Do: runs the function only if the Once is not known to have fired, under an arbitrary condition")
+	x.under(st, cond, func(sub *State) {
 		x.callFunc(fr, sub, cv.Fn, cv.Bindings, nil, in, nil)
 	})
 	return nil
